@@ -223,6 +223,52 @@ theorem load_export_energy (C : Container) (s : ℕ → ℤ) :
   · refine sum_congr rfl (fun i hi => ?_)
     rw [hL, load_entry C.n C.J C.h C.ci i i (mem_range.1 hi) (mem_range.1 hi)]
 
+/-- energy (in units of 1/100) of the loaded QUBO at the integer assignment `x`: the loader returns one matrix
+    whose quadratic form is evaluated with the diagonal in place; variables at or beyond `dim` have no
+    coefficient -/
+def _root_.Vrp.Loaded.quboEnergy100 (L : Loaded) (x : ℕ → ℤ) : ℤ :=
+  sumToI L.dim (fun i => sumToI L.dim fun j => L.entry i j * x i * x j) + L.const
+
+/-- **reading a QUBO file back gives the quadratic form of the rounded in-memory QUBO**, at every assignment
+    (in units of 1/100; sums over all `n` variables).  QUBO counterpart of `load_export_energy`, with `J, h, ci`
+    replaced by `Q, diag Q, cq`; since `coeff100 Q (diag Q) i i` is the rounded diagonal entry, the diagonal
+    stays inside the double sum (on binary `x` the term `coeff100 … i i * x i * x i` is the linear term) -/
+theorem load_export_energy_qubo (C : Container) (x : ℕ → ℤ) :
+    (loadFile C.exportQubo).quboEnergy100 x
+      = sumToI C.n (fun i => sumToI C.n fun j => coeff100 C.Q (fun i => C.Q i i) i j * x i * x j)
+        + round2 C.cq := by
+  obtain ⟨hdim, hconst, _⟩ := load_shape C.n C.Q (fun i => C.Q i i) C.cq
+  unfold Container.exportQubo
+  unfold Loaded.quboEnergy100
+  rw [hconst]
+  simp only [sumToI_eq]
+  set L := loadFile (exportFile C.n C.Q (fun i => C.Q i i) C.cq) with hL
+  have h2 := sum2_extend L.dim C.n hdim (fun i j => L.entry i j * x i * x j)
+    (fun i j hij => by rw [load_entry_beyond_dim _ i j hij]; ring)
+  rw [h2]
+  congr 1
+  refine sum_congr rfl (fun i hi => sum_congr rfl (fun j hj => ?_))
+  rw [hL, load_entry C.n C.Q (fun i => C.Q i i) C.cq i j (mem_range.1 hi) (mem_range.1 hj)]
+
+/-- on a binary assignment the loaded QUBO energy splits into the off-diagonal quadratic part and the linear
+    part carried by the diagonal (the shape of `load_export_energy`) -/
+theorem load_export_energy_qubo_binary (C : Container) (x : ℕ → ℤ) (hx : ∀ i, x i = 0 ∨ x i = 1) :
+    (loadFile C.exportQubo).quboEnergy100 x
+      = sumToI C.n (fun i => sumToI C.n fun j =>
+          if i = j then 0 else coeff100 C.Q (fun i => C.Q i i) i j * x i * x j)
+        + sumToI C.n (fun i => coeff100 C.Q (fun i => C.Q i i) i i * x i) + round2 C.cq := by
+  rw [load_export_energy_qubo]
+  simp only [sumToI_eq]
+  congr 1
+  rw [← sum_add_distrib]
+  refine sum_congr rfl (fun i hi => ?_)
+  rw [← add_sum_erase _ _ hi, ← add_sum_erase (range C.n) (fun j => if i = j then 0 else _) hi]
+  have hxx : x i * x i = x i := by rcases hx i with h | h <;> rw [h] <;> rfl
+  rw [if_pos rfl, zero_add, mul_assoc, hxx, add_comm]
+  congr 1
+  refine sum_congr rfl (fun j hj => ?_)
+  rw [if_neg (fun h => (mem_erase.1 hj).1 h.symm)]
+
 /-- an integer-valued QUBO (every feasibility instance: A, b, R integral, ρ = 1) has Ising coefficients that
     are multiples of 1/4, hence of 0.01 -/
 theorem feas_ising_coeffs_hundredths (n : ℕ) (Q : Mat) (c : ℚ) (hQ : ∀ i j, ∃ z : ℤ, Q i j = z) (hc : ∃ z : ℤ, c = z) :
